@@ -376,9 +376,23 @@ fn alt_encode(r: &mut Rng, v: &PlutusData, out: &mut Vec<u8>) {
         PlutusData::BoundedBytes(b) => alt_bytes(r, b, out),
     }
 }
-fn has_tag102(bs: &[u8]) -> bool {
-    bs.windows(2).any(|w| w == [0xd8, 0x66]) || bs.windows(3).any(|w| w == [0xd9, 0, 0x66])
-        || bs.windows(5).any(|w| w == [0xda, 0, 0, 0, 0x66]) || bs.windows(9).any(|w| w == [0xdb, 0, 0, 0, 0, 0, 0, 0, 0x66])
+/// tag 102 with an inner array head the Rust does not check (`d.array()?` ignores the length; for an
+/// indefinite head the break is not consumed): any head, then uint, then the fields, then junk
+fn lenient102(r: &mut Rng) -> Vec<u8> {
+    let mut out = vec![];
+    let wrap = r.below(5);
+    match wrap { 1 => out.push(0x81), 2 => out.push(0x9f), 3 => out.push(0x82), 4 => out.extend([0xa1, 0x00]), _ => {} }
+    alt_head(r, 6, 102, &mut out);
+    match r.below(8) { 0 => out.push(0x80), 1 => out.push(0x81), 2 => out.push(0x82), 3 => out.push(0x83), 4 => out.extend([0x98, 0x02]), 5 => out.push(0x9f), 6 => out.extend([0x9a, 0, 0, 0, 2]), _ => out.push(0x97) }
+    let any = r.u64_edgy();
+    alt_head(r, 0, any, &mut out);
+    let n = r.below(3) as usize;
+    let fields: Vec<PlutusData> = (0..n).map(|_| gen_value(r, 0)).collect();
+    if r.chance(1, 2) { alt_head(r, 4, n as u64, &mut out); for x in &fields { alt_encode(r, x, &mut out); } }
+    else { out.push(0x9f); for x in &fields { alt_encode(r, x, &mut out); } out.push(0xff); }
+    match r.below(4) { 0 => out.push(0x05), 1 => out.push(0xff), 2 => out.extend([0x05, 0xff]), _ => {} }
+    match wrap { 2 => out.push(0xff), 3 => out.push(0x00), _ => {} }
+    out
 }
 
 pub fn generate(g: &mut Gen) {
@@ -413,7 +427,7 @@ pub fn generate(g: &mut Gen) {
             let mut alt = vec![]; alt_encode(&mut r, x, &mut alt);
             ops.push(format!("decx {} {}", hex(&alt), show_s(&norm_any(x))));
         }
-        // malformed / truncated input (kept away from the tag-102 leniency the model documents)
+        // malformed / truncated input, and the tag-102 leniency of the decoder
         let mut enc = minicbor::to_vec(&vals[0]).unwrap();
         match r.below(4) {
             0 => { let n = r.below(enc.len() as u64 + 1) as usize; enc.truncate(n); }
@@ -421,7 +435,8 @@ pub fn generate(g: &mut Gen) {
             2 => { let n = r.range(1, 12) as usize; enc = r.bytes(n); }
             _ => { enc.extend(r.bytes(3)); }
         }
-        if !has_tag102(&enc) { ops.push(format!("dec {}", hex(&enc))); }
+        ops.push(format!("dec {}", hex(&enc)));
+        if r.chance(1, 4) { ops.push(format!("dec {}", hex(&lenient102(&mut r)))); }
         g.case(ops);
     }
 }
